@@ -304,14 +304,19 @@ def rand_grammar(rnd, flavour=None, regex_ok=True, computed=None, recursion=True
             variant = use_comp if isinstance(use_comp, int) and not isinstance(use_comp, bool) else rnd.choice([1, 2, 3])
             rules["<len>"] = alt(lit_text("1"), lit_text("2"), lit_text("3"), lit_text("4"))
             rules["<item>"] = alt(lit_text("p"), lit_text("q"))
-            if variant == 1:
+            if variant in (1, 4):
                 body = nt("<item>")
             elif variant == 2:    # multi-symbol body
                 rules["<val>"] = alt(lit_text("x"), lit_text("y"), lit_text("zz"))
                 body = cat(nt("<item>"), lit_text("="), nt("<val>"))
             else:                 # multi-symbol body that ends in a terminal
                 body = cat(nt("<item>"), lit_text(","))
-            rules["<rec>"] = cat(nt("<len>"), lit_text(":"), rep(body, 1, INF, ref="<len>"), lit_text("."))
+            if variant == 4:      # the count may be 0 (the repetition is then absent) and is compared with a second field
+                rules["<len>"] = alt(lit_text("0"), lit_text("1"), lit_text("2"), lit_text("3"))
+                rules["<trail>"] = alt(lit_text("0"), lit_text("1"), lit_text("2"), lit_text("3"))
+                rules["<rec>"] = cat(nt("<len>"), lit_text(":"), rep(nt("<item>"), 0, INF, ref="<len>"), lit_text(";"), nt("<trail>"))
+            else:
+                rules["<rec>"] = cat(nt("<len>"), lit_text(":"), rep(body, 1, INF, ref="<len>"), lit_text("."))
             # exactly one record per tree: two records whose iterations share origin tags after a copy are the
             # recorded origin-tag finding (F19), replayed as a pinned witness only
             rules["<start>"] = cat(rules["<start>"], nt("<rec>"))
@@ -373,6 +378,9 @@ COMPUTED_CONSTRAINTS = [
 
 
 def rand_constraints(rnd, g):
+    if g.get("computed") == 4:
+        return rnd.choice([['where str(<len>) == str(<trail>)'], ['where str(<len>) == str(<trail>)', 'where int(<trail>) >= 2'],
+                           ['where int(<len>) + int(<trail>) == 3'], []])
     if g.get("computed"):
         return rnd.choice(COMPUTED_CONSTRAINTS)
     if g.get("flavour") != "text":
